@@ -201,6 +201,7 @@ def run(col, configs, tier):
         guarded(col, X.rule_bigfloat_bits, facts)
         guarded(col, X.rule_binary_factor, facts)
         guarded(col, X.rule_slice_length_pairing, facts)
+        guarded(col, X.rule_power_index_guards, facts)
         # the `_ => unreachable!()` arm of every peek dispatch is unreachable only if all 16 flag combinations are arms
         guarded(col, SEP.rule_peek_dispatch, facts)
         guarded(col, X.rule_exponent_bound, facts)
